@@ -1,10 +1,20 @@
 use rusty_common::AtPos;
-use rusty_parser::{CaseExpression, ExpressionPos};
+use rusty_parser::{CaseExpression, ExpressionPos, ExpressionType, HasExpressionType};
 
 use super::post_conversion_linter::PostConversionLinter;
 use crate::core::{CanCastTo, LintError, LintErrorPos};
 
 pub struct SelectCaseLinter;
+
+impl SelectCaseLinter {
+    /// A `CASE` expression is compared with the selector: both must be strings
+    /// or both must be numbers. Records of the same type can be assigned to
+    /// one another, but they cannot be compared.
+    fn can_compare(expr: &ExpressionPos, select_expr: &ExpressionPos) -> bool {
+        !matches!(expr.expression_type(), ExpressionType::UserDefined(_))
+            && expr.can_cast_to(select_expr)
+    }
+}
 
 impl PostConversionLinter for SelectCaseLinter {
     fn visit_case_expression(
@@ -14,21 +24,21 @@ impl PostConversionLinter for SelectCaseLinter {
     ) -> Result<(), LintErrorPos> {
         match case_expr {
             CaseExpression::Simple(expr) => {
-                if !expr.can_cast_to(select_expr) {
+                if !Self::can_compare(expr, select_expr) {
                     return Err(LintError::TypeMismatch.at(expr));
                 }
             }
             CaseExpression::Range(from, to) => {
-                if !from.can_cast_to(select_expr) {
+                if !Self::can_compare(from, select_expr) {
                     return Err(LintError::TypeMismatch.at(from));
                 }
 
-                if !to.can_cast_to(select_expr) {
+                if !Self::can_compare(to, select_expr) {
                     return Err(LintError::TypeMismatch.at(to));
                 }
             }
             CaseExpression::Is(_, expr) => {
-                if !expr.can_cast_to(select_expr) {
+                if !Self::can_compare(expr, select_expr) {
                     return Err(LintError::TypeMismatch.at(expr));
                 }
             }
